@@ -42,4 +42,20 @@ theorem registries_init_only :
        ("immediateFunctions", ["RegisterExternalFunction", "RegisterFunction", "RegisterImmediateFunction"]),
        ("topLevelFunctions", ["RegisterTopLevelFunction"])] := by decide
 
+/-- every function that so much as mentions a package-level variable: the compiled tokenizer patterns
+    (read-only after `init`), the registries (read by the evaluator, written by `Register*`), the
+    selector cache and its mutex.  A new shared variable (a reused hasher, buffer, counter …) or a new
+    user of an existing one changes this table. -/
+theorem package_vars_users :
+    packageVarUsers =
+      [("arrayPattern", ["ParseArray"]),
+       ("cache", ["ExecReader", "init"]),
+       ("fullPattern", ["ParseSelector"]),
+       ("functionNamePattern", ["ParseSelector"]),
+       ("functions", ["AggrFunExpr", "FunExpr", "RegisterExternalFunction", "RegisterFunction"]),
+       ("immediateFunctions", ["IsImmediateFunction", "RegisterExternalFunction", "RegisterFunction", "RegisterImmediateFunction"]),
+       ("mut", ["ExecReader"]),
+       ("pipePattern", ["ParsePipe"]),
+       ("topLevelFunctions", ["ReaderExecutor", "RegisterTopLevelFunction"])] := by decide
+
 end Genql.Obligations.C13
